@@ -444,11 +444,14 @@ class Woven:
     pass
 
 
-def weave(repo='/repo', contracts='/verif/contracts', extra_modules=(), drop_directives=()):
+def weave(repo='/repo', contracts='/verif/contracts', extra_modules=(), drop_directives=(), override_src=None):
     """returns Woven with .text, .files{rel: info}, .fn_spans[(rel,key)] = (line_lo, line_hi), .stats"""
     srcdir = os.path.join(repo, 'src')
+    override_src = override_src or {}     # rel -> path of the baseline text used INSTEAD of the current file (isolation, see check.py)
     log = []
     w = Woven()
+    w.substituted = sorted(override_src)
+    w.struct_files = {}
     w.files = {}
     w.lost_hints = []
     w.lost_loops = []
@@ -459,7 +462,7 @@ def weave(repo='/repo', contracts='/verif/contracts', extra_modules=(), drop_dir
     pieces = []   # (text, rel or None, segs, inslog)
 
     def module_text(rel, modname):
-        path = os.path.join(srcdir, rel)
+        path = override_src.get(rel, os.path.join(srcdir, rel))
         src = open(path).read()
         vs = os.path.join(contracts, modname + '.vspec')
         dirs = parse_vspec(vs) if os.path.exists(vs) else []
@@ -494,7 +497,7 @@ def weave(repo='/repo', contracts='/verif/contracts', extra_modules=(), drop_dir
     for fn_ in sorted(os.listdir(inddir)):
         if not fn_.endswith('.rs') or fn_ == 'mod.rs':
             continue
-        txt_ = open(os.path.join(inddir, fn_)).read()
+        txt_ = open(override_src.get('indicators/' + fn_, os.path.join(inddir, fn_))).read()
         m_ = mask(txt_)
         for am in re.finditer(r'use\s+crate::indicators::(\w+)\s+as\s+(\w+)\s*;', m_):
             aliases[am.group(2)] = am.group(1)
@@ -503,6 +506,7 @@ def weave(repo='/repo', contracts='/verif/contracts', extra_modules=(), drop_dir
                 if it_.kind == 'struct' and it_.body_lo >= 0 and not it_.name.endswith('Output') and 'cfg(test)' not in ' '.join(it_.attrs):
                     structs[it_.name] = LAY.parse_struct_fields(m_[it_.body_lo:it_.body_hi])
                     struct_mod[it_.name] = fn_[:-3]
+                    w.struct_files.setdefault('indicators/' + fn_, []).append(it_.name)
         except (ScanError, LAY.LayoutError) as e:
             raise WeaveError('%s: %s' % (fn_, e))
     lay_texts, w.layout_info, w.layout_problems = LAY.gen(structs, aliases)
